@@ -19,6 +19,86 @@ func init() {
 		Run: c12Run, MaxOps: 2 << 20, Horizon: 6 * time.Hour,
 		Doc: "Close invoked at a tape-chosen point of a connection's life (handshake cancelled, idle, mid-burst, full window, mid-resend / sync wait, Send/Recv blocked, a backlog of received packets that the application never reads) by either side or both at once, 1-3 concurrent callers plus repeats, over a healthy / blacked-out / stalled transport; bounded return, callers woken, peer notified, nothing left running",
 	})
+	simrt.Register(&simrt.Scenario{
+		Prop: "C12", Name: "fin-after-resent-handshake", Count: tiered(300, 80000),
+		Run: c12FinFirst, MaxOps: 1 << 20, Horizon: time.Hour,
+		Doc: "the handshake needs one retransmission (the first SYN, or the first SYNACK, is lost), nothing else is lost; the first packet an endpoint gets after the handshake is the peer's FIN (the peer closes without having sent anything): its blocked Recv must fail within the FIN bound",
+	})
+}
+
+// c12FinFirst: after a handshake with one timeout, is the very first packet of
+// the data phase - here a FIN - really handled by the connection?
+func c12FinFirst(rc *simrt.RunCtx) {
+	n := []uint8{1, 3, DefaultN}[rc.Pick(3, "knob.n")]
+	tk := tknobs{handshake: 300 * time.Millisecond, static: true, resend: 300 * time.Millisecond}
+	keepalive := rc.Pick(2, "knob.keepalive") == 1
+	if keepalive {
+		tk.ping = time.Duration(5+rc.Pick(5, "knob.ping")) * time.Second
+		tk.pong = 3 * time.Second
+	}
+	lost := []byte{SYN, SYNACK}[rc.Pick(2, "net.lost")]
+	lat := time.Duration(1+rc.Pick(30, "net.lat")) * time.Millisecond
+	c2s := &netCfg{latMin: lat, latMax: lat}
+	s2c := &netCfg{latMin: lat, latMax: lat}
+	np := newNetPair(rc, c2s, s2c)
+	dropped := false
+	np.c2s.filter = func(b []byte, _ time.Duration) (byte, time.Duration) {
+		if !dropped && len(b) > 0 && b[0] == lost {
+			dropped = true
+			return 'x', 0
+		}
+		return 0, 0
+	}
+	rc.Knob("case", fmt.Sprintf("N=%d lost=%s keepalive=%v", n, pktKind([]byte{lost, 0}), keepalive))
+	p := startPair(rc, np, n, []Option{WithTimeoutOptions(tk.opts()...)}, []Option{WithTimeoutOptions(tk.opts()...)})
+	if !p.waitBoth(time.Minute) {
+		if lost == SYNACK {
+			// the client is in the data phase and silent (no keepalive):
+			// the server keeps waiting for it, legitimately
+			rc.Probe("c12.finfirst-server-still-waiting")
+		} else {
+			rc.HarnessError("handshake with a single lost SYN did not complete")
+		}
+		p.closeAll()
+		return
+	}
+	cli, e1 := p.cli.get()
+	srv, e2 := p.srv.get()
+	if e1 != nil || e2 != nil || cli == nil || srv == nil {
+		rc.Probe("c12.finfirst-handshake-failed")
+		p.closeAll()
+		return
+	}
+	// the endpoint whose handshake timed out is the one that will be told
+	closer, peer, peerName := srv, cli, "client"
+	if lost == SYNACK {
+		closer, peer, peerName = cli, srv, "server"
+	}
+	var tr callTracker
+	done := make(chan struct{})
+	go func() {
+		defer close(done)
+		tr.begin()
+		_, err := peer.Recv()
+		tr.end(err)
+	}()
+	time.Sleep(time.Duration(rc.Pick(2000, "wl.close-after")) * time.Millisecond)
+	tClose := rc.Now()
+	closer.Close()
+	rc.Fault("fin-is-first-packet")
+	bound := c12Fin + 2*lat + 2*time.Second
+	select {
+	case <-done:
+		rc.Probe("c12.finfirst-peer-told")
+		rc.Progress()
+	case <-time.After(bound):
+		rc.Violate("c12.peer-hangs", peerName+"/first-packet-after-resent-handshake", "%v after the other side closed (healthy transport, nothing lost since the handshake's one retransmission, keepalive %v) the %s's blocked Recv has not returned (closed=%v): the FIN never reached its receive loop", rc.Now()-tClose, keepalive, peerName, isClosed(peer))
+	}
+	p.closeAll()
+	select {
+	case <-done:
+	case <-time.After(time.Minute):
+	}
 }
 
 const c12Fin = time.Second // default FIN send timeout of the code under test
